@@ -164,9 +164,12 @@ func (e extensionJSON) ToNode() (ast.Node, error) {
 	for k, v = range e {
 		_, _ = k, v
 	}
-	_, ok := extensions.ExtMap[types.Path(k)]
+	info, ok := extensions.ExtMap[types.Path(k)]
 	if !ok {
 		return ast.Node{}, fmt.Errorf("`%v` is not a known extension function or method", k)
+	}
+	if info.IsMethod && len(v) == 0 {
+		return ast.Node{}, fmt.Errorf("method `%v` is called without a receiver", k)
 	}
 	var argNodes []ast.Node
 	for _, n := range v {
